@@ -21,6 +21,7 @@ type grammarCtx struct {
 	m  *parserModel
 	f  *parserFlow
 	tk *types.Named // lexer.Token
+	endsPeeked map[*ssa.Function]int // 0 unknown, 1 in progress, 2 every return leaves a peeked token, 3 not
 }
 
 func newGrammarCtx(c *Ctx, r *RuleResult) *grammarCtx {
@@ -533,6 +534,39 @@ func (g *grammarCtx) constContexts(r *RuleResult, roots []*ssa.Function, what st
 	for _, t := range targets {
 		isTargetFn[rootFunc(t.fn)] = true
 	}
+	// methods used as callbacks through a bound method value (`p.many(l, r, c.addItem)` with c a local collector): like
+	// a closure, such a method runs in the context of the function that created the value; its reads of the receiver's
+	// fields stand for the creator's variables
+	boundIn := map[*ssa.Function][]*ssa.Function{} // creator -> methods
+	isBound := map[*ssa.Function]bool{}
+	for _, fn := range g.m.fns {
+		allInstrs(fn, func(in ssa.Instruction) {
+			mc, ok := in.(*ssa.MakeClosure)
+			if !ok {
+				return
+			}
+			w := mc.Fn.(*ssa.Function)
+			if m := unwrapThunk(w); m != w && inParserPkg(g.m, m) {
+				boundIn[rootFunc(fn)] = append(boundIn[rootFunc(fn)], m)
+				isBound[m] = true
+			}
+		})
+	}
+	// a method is treated so only when it is never called directly
+	for m := range isBound {
+		if len(callsTo(g.m.fns, m)) > 0 {
+			// direct calls come from the $bound wrapper only when nothing else names the method
+			direct := 0
+			for _, ci := range callsTo(g.m.fns, m) {
+				if ci.Parent().Synthetic == "" {
+					direct++
+				}
+			}
+			if direct > 0 {
+				delete(isBound, m)
+			}
+		}
+	}
 	for len(work) > 0 {
 		cx := work[len(work)-1]
 		work = work[:len(work)-1]
@@ -542,14 +576,20 @@ func (g *grammarCtx) constContexts(r *RuleResult, roots []*ssa.Function, what st
 			continue
 		}
 		// calls in fn and in its closures (closures inherit the binding)
-		for _, f := range withClosures(cx.fn) {
+		scopeFns := withClosures(cx.fn)
+		for _, m := range boundIn[cx.fn] {
+			if isBound[m] {
+				scopeFns = append(scopeFns, withClosures(m)...)
+			}
+		}
+		for _, f := range scopeFns {
 			allInstrs(f, func(in ssa.Instruction) {
 				ci, ok := in.(ssa.CallInstruction)
 				if !ok {
 					return
 				}
 				for _, callee := range g.f.calleesOf[ci] {
-					if !inParserPkg(g.m, callee) || callee.Parent() != nil {
+					if !inParserPkg(g.m, callee) || callee.Parent() != nil || isBound[callee] {
 						continue
 					}
 					nb := 2
@@ -618,8 +658,8 @@ func (g *grammarCtx) listRule(r *RuleResult) {
 		}
 	}
 	n := len(callsTo(g.m.fns, some))
-	if n < 10 {
-		r.Fail(some.Pos(), p.FuncName(some), "few uses of some", fmt.Sprintf("only %d delimited repetitions use the non-empty helper (12 confirmed by hand)", n))
+	if n < 6 {
+		r.Fail(some.Pos(), p.FuncName(some), "few uses of some", fmt.Sprintf("only %d delimited repetitions use the non-empty helper (10 confirmed by hand; the floor is half of that plus one)", n))
 	} else {
 		r.OK(fmt.Sprintf("%d delimited repetitions use the non-empty helper", n), "")
 	}
@@ -641,8 +681,17 @@ func (g *grammarCtx) listRule(r *RuleResult) {
 	okFlag := false
 	for _, ec := range errCalls {
 		for _, cd := range condsAt(ec.Block()) {
-			ph, ok := cd.V.(*ssa.Phi)
-			if !ok {
+			var ph ssa.Value
+			switch x := cd.V.(type) {
+			case *ssa.Phi:
+				ph = x
+			case *ssa.Call:
+				// the flag comes back from the helper that runs the loop (`called := p.repeatUntil(end, cb)`)
+				if h := x.Call.StaticCallee(); h != nil && inParserPkg(g.m, h) && len(h.Blocks) > 0 && h.Signature.Results().Len() == 1 {
+					ph = x
+				}
+			}
+			if ph == nil {
 				continue
 			}
 			// phi(false from before the loop, true from the loop body)
@@ -663,6 +712,14 @@ func (g *grammarCtx) listRule(r *RuleResult) {
 					for _, e := range x.Edges {
 						if e != v {
 							walk(e, d+1)
+						}
+					}
+				case *ssa.Call:
+					if h := x.Call.StaticCallee(); h != nil {
+						for _, ret := range returnsOf(h) {
+							if len(ret.Results) == 1 {
+								walk(ret.Results[0], d+1)
+							}
 						}
 					}
 				}
